@@ -146,6 +146,8 @@ const (
 	zzC0102C1     = "10.77.1.10"
 	zzC0102C1CIDR = "10.77.1.0/24"
 	zzC0102C2     = "10.77.2.20"
+	zzC0102Outer  = "10.77.0.0/16"
+	zzC0102Inner  = "10.77.1.32/28"
 	zzC0102Kid    = "kid"
 	zzC0102Svc    = "4chan"
 	// zzC0102Svc2 is the service of a client's own set.
@@ -163,6 +165,68 @@ var zzC0102Qtypes = map[string]uint16{
 
 // ------------------------------------------------------------- concretisation
 
+// zzC0102AddrForm is how the two clients' addresses are spelled on one server:
+// which addresses c1 and c2 have, the prefixes around c1 used in $client rules
+// and for the nested persistent clients, and the FORM in which the server
+// sees the source address of a request:
+//
+//	"plain"   an IPv4 address
+//	"zoned"   a link-local IPv6 address with its zone (fe80::...%eth0), which
+//	          is how every link-local peer's address arrives
+//	"mapped"  the IPv4 address as an IPv4-mapped IPv6 address (::ffff:a.b.c.d),
+//	          which is how a dual-stack reverse proxy reports an IPv4 client
+//
+// The client is the same whatever the form: abstractly nothing changes.
+type zzC0102AddrForm struct {
+	form                       string
+	c1, c2, cidr, outer, inner string
+}
+
+var zzC0102PlainForm = zzC0102AddrForm{
+	form: "plain", c1: zzC0102C1, c2: zzC0102C2, cidr: zzC0102C1CIDR, outer: zzC0102Outer, inner: zzC0102Inner,
+}
+
+// zzC0102PickForm draws the address form of a server.  Other forms than the
+// plain one are used only when VERIF_ADDRFORMS is set (C01's replay).
+func zzC0102PickForm(rng *rand.Rand) (af zzC0102AddrForm) {
+	k := rng.Intn(6)
+	if os.Getenv("VERIF_ADDRFORMS") == "" {
+		return zzC0102PlainForm
+	}
+
+	switch k {
+	case 0:
+		return zzC0102AddrForm{
+			form: "zoned", c1: "fe80::77:1:10", c2: "fe80::77:2:20", cidr: "fe80::77:1:0/112",
+			outer: "fe80::77:0:0/96", inner: "fe80::77:1:20/124",
+		}
+	case 1:
+		af = zzC0102PlainForm
+		af.form = "mapped"
+
+		return af
+	default:
+		return zzC0102PlainForm
+	}
+}
+
+// wire returns the source address of a request from the client as the server
+// sees it.
+func (af *zzC0102AddrForm) wire(cli string, plain bool) (addr netip.Addr) {
+	addr = netip.MustParseAddr(cli)
+	switch {
+	case plain:
+		return addr
+	case af.form == "zoned":
+		return addr.WithZone("eth0")
+	case af.form == "mapped":
+		return netip.AddrFrom16(addr.As16())
+	default:
+		return addr
+	}
+}
+
+// zzC0102HostText renders the target of a rule.
 func zzC0102HostText(h zzC0102Host, sfx string) (s string) {
 	if h.IsIP {
 		return zzC0102Addrs[h.N[0]]
@@ -206,7 +270,7 @@ func zzC0102Sfx(rng *rand.Rand) (sfx string) {
 
 // zzC0102RuleText renders one abstract rule as a filter-list line.  Rule
 // texts are lower case (DESIGN.md section 4: only the request side varies).
-func zzC0102RuleText(r *zzC0102Rule, rng *rand.Rand, wildStyle int, sfx string) (line string) {
+func zzC0102RuleText(r *zzC0102Rule, rng *rand.Rand, wildStyle int, sfx string, af *zzC0102AddrForm) (line string) {
 	n := zzC0102HostText(r.Tgt, sfx)
 	if r.Kind == "hosts" {
 		if r.IP == "null4" && rng.Intn(2) == 0 {
@@ -257,10 +321,10 @@ func zzC0102RuleText(r *zzC0102Rule, rng *rand.Rand, wildStyle int, sfx string) 
 	}
 
 	if r.Cl != "none" && r.Cl != "" {
-		v := zzC0102C1
+		v := af.c1
 		switch r.Clv {
 		case "cidr":
-			v = zzC0102C1CIDR
+			v = af.cidr
 		case "name":
 			v = "'" + zzC0102Kid + "'"
 		}
@@ -449,7 +513,11 @@ type zzC0102Srv struct {
 	ops       []string
 	wildStyle int
 	// sfx is the decoration of this server's labels (zzC0102Name).
-	sfx   string
+	sfx string
+	// af is the form of the clients' addresses; forcePlain makes the next
+	// requests arrive with the plain form of the same addresses.
+	af         zzC0102AddrForm
+	forcePlain bool
 	reqID uint64
 	// ruleText keeps the rendering of every abstract rule for the life of the
 	// server: a list that gets the same rules again gets the same bytes.
@@ -610,7 +678,7 @@ func (z *zzC0102Srv) render(cfg *zzC0102Cfg, rng *rand.Rand, split bool) (byKey 
 		key := zzC0102JSON(rk)
 		t, ok := z.ruleText[key]
 		if !ok {
-			t = zzC0102RuleText(r, rng, z.wildStyle, z.sfx)
+			t = zzC0102RuleText(r, rng, z.wildStyle, z.sfx, &z.af)
 			z.ruleText[key] = t
 		}
 		z.texts[r.Place] = append(z.texts[r.Place], t)
@@ -637,9 +705,12 @@ func (z *zzC0102Srv) persistent(c zzC0102Client) (p *client.Persistent) {
 	if z.nested {
 		// identified by the /24 around c1, between the "outer" /16 and the
 		// "inner" /28 clients (see neighbours)
-		p.Subnets = []netip.Prefix{netip.MustParsePrefix(zzC0102C1CIDR)}
+		p.Subnets = []netip.Prefix{netip.MustParsePrefix(z.af.cidr)}
 	} else {
-		p.IPs = []netip.Addr{netip.MustParseAddr(zzC0102C1)}
+		// The exact-address identifier of a link-local client is written
+		// with its zone (an identifier can carry one, and fe80::1 on another
+		// interface is another host); a mapped address denotes the IPv4 one.
+		p.IPs = []netip.Addr{z.af.wire(z.af.c1, z.af.form != "zoned")}
 	}
 
 	return p
@@ -654,12 +725,12 @@ func (z *zzC0102Srv) persistent(c zzC0102Client) (p *client.Persistent) {
 func (z *zzC0102Srv) neighbours() (outer, inner *client.Persistent) {
 	outer = &client.Persistent{
 		Name: "outer", UID: client.MustNewUID(),
-		Subnets:         []netip.Prefix{netip.MustParsePrefix("10.77.0.0/16")},
+		Subnets:         []netip.Prefix{netip.MustParsePrefix(z.af.outer)},
 		BlockedServices: zzC0102Services("none", zzC0102Svc2, false),
 	}
 	inner = &client.Persistent{
 		Name: "inner", UID: client.MustNewUID(),
-		Subnets:          []netip.Prefix{netip.MustParsePrefix("10.77.1.32/28")},
+		Subnets:          []netip.Prefix{netip.MustParsePrefix(z.af.inner)},
 		UseOwnSettings:   true,
 		FilteringEnabled: !z.cfg.Client.Filt,
 		BlockedServices:  zzC0102Services("none", zzC0102Svc2, false),
@@ -708,7 +779,7 @@ func zzC0102Build(cfg *zzC0102Cfg, dir string, rng *rand.Rand) (z *zzC0102Srv, e
 	z = &zzC0102Srv{
 		cfg: cfg, dir: dir, lists: map[string]*zzC0102List{}, handlers: map[string]http.HandlerFunc{},
 		asked: map[string]bool{}, wildStyle: rng.Intn(3), ruleText: map[string]string{},
-		sfx: zzC0102Sfx(rng),
+		sfx: zzC0102Sfx(rng), af: zzC0102PickForm(rng),
 		// Request ids of the requests handed to the handler directly; far from
 		// the ids the proxy gives to the requests of the UDP sample (the
 		// ClientID of a request is kept by request id).
@@ -1268,7 +1339,7 @@ func (z *zzC0102Srv) failedRebuild(rng *rand.Rand) (done bool, err error) {
 
 	l := live[rng.Intn(len(live))]
 	var path string
-	for _, lists := range [][]filtering.FilterYAML{z.fc.Filters, z.fc.WhitelistFilters} {
+	for _, lists := range z.listConf() {
 		for i := range lists {
 			if lists[i].URL == l.src {
 				path = lists[i].Path(z.dir)
@@ -1310,9 +1381,18 @@ func (z *zzC0102Srv) failedRebuild(rng *rand.Rand) (done bool, err error) {
 	return true, err
 }
 
+// listConf returns the rule lists the filter has now (filtering keeps its own
+// copy of the configuration; WriteDiskConfig is how home reads it back).
+func (z *zzC0102Srv) listConf() (lists [][]filtering.FilterYAML) {
+	c := &filtering.Config{}
+	z.f.WriteDiskConfig(c)
+
+	return [][]filtering.FilterYAML{c.Filters, c.WhitelistFilters}
+}
+
 // heal puts the files of all lists back after failedRebuild.
 func (z *zzC0102Srv) heal() (err error) {
-	for _, lists := range [][]filtering.FilterYAML{z.fc.Filters, z.fc.WhitelistFilters} {
+	for _, lists := range z.listConf() {
 		for i := range lists {
 			p := lists[i].Path(z.dir)
 			fi, serr := os.Lstat(p)
@@ -1352,6 +1432,18 @@ func (z *zzC0102Srv) settled(
 		if zzC0102Admissible(o.Out, want(o.Rep)) {
 			return o, true
 		}
+		if z.af.form != "plain" && via == "" {
+			// Is it the FORM of the client's address?  The same request from
+			// the same client in the plain form of its address:
+			z.forcePlain = true
+			o2 := z.query(req, ans, rng, via)
+			z.forcePlain = false
+			if zzC0102Admissible(o2.Out, want(o2.Rep)) {
+				o.AddrForm = z.af.form
+
+				return o, false
+			}
+		}
 		if !time.Now().Before(z.settleUntil) {
 			return o, false
 		}
@@ -1369,6 +1461,10 @@ type zzC0102Obs struct {
 	Concrete string     `json:"concrete"`
 	// Rep is true when this server had been asked the question before.
 	Rep bool `json:"rep"`
+	// AddrForm is set when the outcome is not admissible although the same
+	// request with the plain form of the client's address is: the form of the
+	// address ("zoned", "mapped") makes the difference.
+	AddrForm string `json:"addrform"`
 }
 
 // query sends one request through handleDNSRequest.  ans is the abstract
@@ -1399,10 +1495,11 @@ func (z *zzC0102Srv) query(req *zzC0102Req, ans []zzC0102RR, rng *rand.Rand, via
 	o.Rep = z.asked[qkey]
 	z.asked[qkey] = true
 
-	cli := zzC0102C2
+	cli := z.af.c2
 	if req.Client == "c1" {
-		cli = zzC0102C1
+		cli = z.af.c1
 	}
+	src := z.af.wire(cli, z.forcePlain)
 
 	var res *dns.Msg
 	var herr error
@@ -1412,7 +1509,7 @@ func (z *zzC0102Srv) query(req *zzC0102Req, ans []zzC0102RR, rng *rand.Rand, via
 		z.reqID++
 		pctx := &proxy.DNSContext{
 			Proto: proxy.ProtoUDP, Req: m, RequestID: z.reqID,
-			Addr: netip.AddrPortFrom(netip.MustParseAddr(cli), uint16(1024+rng.Intn(60000))),
+			Addr: netip.AddrPortFrom(src, uint16(1024+rng.Intn(60000))),
 		}
 		// A panic while the request is handled is an observation (the real
 		// server would lose the request, or crash), not a harness failure.
@@ -1427,7 +1524,7 @@ func (z *zzC0102Srv) query(req *zzC0102Req, ans []zzC0102RR, rng *rand.Rand, via
 		res = pctx.Res
 	}
 
-	o.Concrete = fmt.Sprintf("%s %s from %s", qname, req.Qtype, cli)
+	o.Concrete = fmt.Sprintf("%s %s from %s", qname, req.Qtype, src)
 	if req.Cid != "" {
 		o.Concrete += " DoT ClientID " + req.Cid
 	}
